@@ -80,4 +80,11 @@ CHECKS = {
         note="Bounds: scripts <= 2 packs (3 thorough) over 13 pack letters; <= 2 deviations (3 thorough); hook-to-hook segments are atomic; source dispatcher and downstream are the models of DESIGN 2.7.",
         parts=[part("stream", "core", "reader", "TestVerifC01Stream", shards=(12, 16), budget=(150, 900), gomaxprocs=1)],
     ),
+    "C02": dict(
+        level="exploration", engine="sched",
+        technique="stateless DFS over goroutine schedules (deviation-bounded) of the real channel manager for every placement scenario",
+        text="For every upstream/downstream placement scenario (renamed, differently sorted, crosswise-shared channels with forwarding, lazily learned downstream partition ids, collections created through the event; 2:1 and 1:2 channel counts in thorough) every start order and schedule within the deviation bound is executed on the real channel manager and each emitted message's ids, shard name, arrival channel and positions are compared with an independently computed pairing.",
+        note="Placements are the listed scenarios (2 collections x 2 shards at most); <= 2 deviations (3 thorough). Downstream ids come from the fake TargetAPI, which applies create events the way the writer would.",
+        parts=[part("routing", "core", "reader", "TestVerifC02Routing", shards=(12, 16), budget=(150, 900), gomaxprocs=1)],
+    ),
 }
